@@ -184,9 +184,24 @@ def line(cmd, kind, ws, desc_toks, *rest):
 
 
 # ------------------------------------------------------------------ drivers
+# The extracted readers / writers recurse on the list of bytes (not tail recursive): 2^16 elements
+# need more than the default 8 MiB of stack (64 MiB are enough for the quick tier), a string of 2^20
+# bytes more still.  Raise the soft limit as far as the hard limit allows; the brace group (no
+# subshell: the limit must hold for what follows) keeps every ulimit message off the output,
+# which is compared line by line.
+STACK_PREFIX = "{ ulimit -s unlimited || ulimit -s 1000000 || ulimit -s $(ulimit -H -s) || :; } 2>/dev/null; "
+
+
+def padded(outs, n):
+    """the outputs of n cases: a driver that stopped early leaves `<no output>` for the rest"""
+    return list(outs[:n]) + ["<no output>"] * (n - len(outs))
+
+
 def drivers(ctx, variant="plain"):
     os.makedirs(TMP, exist_ok=True)
-    model_bin = "ulimit -s unlimited 2>/dev/null || ulimit -s 1000000; " + pv.build_ocaml("io")
+    model_bin = STACK_PREFIX + pv.build_ocaml("io")
+    rc, out = pv.sh(STACK_PREFIX + "ulimit -s")
+    ctx.cov["model_driver_stack_limit_kb"] = out.strip()[:40]
     impl = pv.build_harness(variant, "io_drv", "-fno-access-control" + (" -DPV_LIMIT_NEW" if variant == "asan" else ""))
     return impl, model_bin
 
